@@ -38,6 +38,7 @@ def run(ctx):
     res = ctx.validate("Trace_Wire", [p for p, _ in parts])
     total = 0
     kinds = {}
+    hfail = []
     for (p, off), (_, rejects, walked, _) in zip(parts, res):
         recs = vf.read_ndjson(p)
         total += walked
@@ -51,10 +52,15 @@ def run(ctx):
             f = r.get("f") or {}
             hs = [c for c in clauses if c.startswith("H_")]
             if hs:
-                raise vf.Inconclusive("harness sanity clause failed: %s on %s" % (hs, json.dumps(r)[:400]))
+                # a reader input that is not a whole frame: either the harness is wrong, or the writer whose output
+                # it is was already rejected (then that rejection is the finding); decided after the walk
+                hfail.append((hs, r))
+                continue
             key = "%s:%s:v%s:signed=%s:idgt255=%s" % (kind, "+".join(sorted(clauses)), f.get("v"),
                                                      f.get("iflag", 0) & 1, f.get("id", 0) > 255)
             ctx.finding(key, "record rejected by PWire clauses %s" % clauses, r)
+    if hfail and not ctx.findings:
+        raise vf.Inconclusive("harness sanity clause failed: %s on %s" % (hfail[0][0], json.dumps(hfail[0][1])[:400]))
     recs0 = vf.read_ndjson(parts[0][0])
     for r in recs0[:2] + recs0[-1:]:
         ctx.sample(r)
